@@ -11,7 +11,7 @@ Inductive fault := Fok | Fshort (m : N).
 
 (* the medium: a window [m_base, m_base + |m_img|) of the 32-bit address space; accesses are logged
    as (is_write, address, length asked); octets outside the window read as 238 and writes there are dropped *)
-Record medium := { m_base : N; m_img : list N; m_log : list (bool * N * N);
+Record medium := { m_base : N; m_img : list N; m_log : list (bool * N * N * N);  (* is_write, address, asked, granted *)
                    m_rd : list fault; m_wr : list fault }.
 
 Record pstore := { p_caddr : N;      (* checksum address *)
@@ -44,7 +44,7 @@ Definition med_read (m : medium) (addr n : N) : list N * medium :=
   let '(f, rd) := pop_fault (m_rd m) in
   let g := granted f n in
   (img_read m addr (N.to_nat g),
-   {| m_base := m_base m; m_img := m_img m; m_log := m_log m ++ [(false, addr, n)]; m_rd := rd; m_wr := m_wr m |}).
+   {| m_base := m_base m; m_img := m_img m; m_log := m_log m ++ [(false, addr, n, g)]; m_rd := rd; m_wr := m_wr m |}).
 
 (* block.write(address, src, n): count written *)
 Definition med_write (m : medium) (addr : N) (xs : list N) : N * medium :=
@@ -52,7 +52,7 @@ Definition med_write (m : medium) (addr : N) (xs : list N) : N * medium :=
   let '(f, wr) := pop_fault (m_wr m) in
   let g := granted f n in
   (g, {| m_base := m_base m; m_img := img_write (m_base m) (m_img m) addr (firstn (N.to_nat g) xs);
-         m_log := m_log m ++ [(true, addr, n)]; m_rd := m_rd m; m_wr := wr |}).
+         m_log := m_log m ++ [(true, addr, n, g)]; m_rd := m_rd m; m_wr := wr |}).
 
 Section Store.
   (* the configured checksum algorithm: one step per octet (all three instances are folds) *)
@@ -127,6 +127,9 @@ Definition step_trivial (s d : N) : N := (s + d) mod 65536.
 Definition step_sum32 (s d : N) : N := (s * 31 + d + 1) mod 4294967296.
 
 (* region of an instance *)
-Definition in_region (st : pstore) (e : bool * N * N) : bool :=
-  let '(_, a, n) := e in
+Definition in_region (st : pstore) (e : bool * N * N * N) : bool :=
+  let '(_, a, n, _) := e in
   (p_caddr st <=? a) && (a + n <=? p_caddr st + p_csize st + p_dsize st).
+
+(* every logged call transferred all it was asked for *)
+Definition full_transfer (e : bool * N * N * N) : bool := let '(_, _, n, g) := e in g =? n.
